@@ -26,7 +26,7 @@ PktEq(lg, ex) ==
 
 (* after a surviving hostile request the requester's own replies are free (error or ordinary reply, any number) *)
 SyncEq(ls, es)  == \/ Len(ls) = Len(es) /\ \A i \in DOMAIN ls : PktEq(ls[i], es[i])
-                   \/ es = <<[t |-> "any"]>> /\ \A i \in DOMAIN ls : ls[i].t \in {"err", "resp", "puback", "suback", "replay", "unsuback"}
+                   \/ es = <<[t |-> "any"]>> /\ \A i \in DOMAIN ls : ls[i].t \in {"err", "resp", "puback", "suback", "replay", "unsuback", "hist"}
 AsyncEq(la, ea) == /\ Len(la) = Cardinality(ea)
                    /\ \A i \in DOMAIN la : \E e \in ea : PktEq(la[i], e)
                    /\ \A e \in ea : \E i \in DOMAIN la : PktEq(la[i], e)
